@@ -168,7 +168,7 @@ def run_schedule(spec, roots, jobs, schedule, ref_vals, clear_layer=None):
     return {'schedule': ''.join(map(str, schedule)), 'results': results, 'unlocked': list(UNLOCKED), 'stuck': stuck, 'points': SCHED.points}
 
 
-def compile_race(spec, roots, jobs, ref_vals, max_points=6000):
+def compile_race(spec, roots, jobs, ref_vals, max_points=6000, warm=None):
     """first calls of two threads on a pipeline object nobody has used yet: thread 0 is paused after its N-th executed line of
     connectome code, thread 1 runs to the end meanwhile, then thread 0 goes on; N = 0, 1, 2, ... until thread 0 needs fewer lines"""
     import connectome
@@ -181,6 +181,12 @@ def compile_race(spec, roots, jobs, ref_vals, max_points=6000):
             shutil.rmtree(r, ignore_errors=True)
         SCHED.enabled = False
         layer, layers = P.build(spec, roots)
+        if warm is not None:
+            # the pipeline has been used before (compiled, caches partly filled): the race is between two later calls
+            try:
+                getattr(layer, warm[0])(warm[1])
+            except BaseException:  # noqa
+                pass
         results = [None, None]
         reached = threading.Event()
         resume = threading.Event()
@@ -220,8 +226,16 @@ def compile_race(spec, roots, jobs, ref_vals, max_points=6000):
         resume.set()
         t0.join(10)
         bad = [i for i in (0, 1) if results[i] is None or results[i].get('val') != ref_vals[i]]
+        # ... and what the race left behind: the same calls again, one after the other
+        after = []
+        for (f_, k_), ref_ in zip(jobs, ref_vals):
+            try:
+                after.append({'val': to_json(getattr(layer, f_)(k_))})
+            except BaseException as e:  # noqa
+                after.append({'exc': f'{type(e).__name__}: {e}'[:200]})
+        bad += [i for i in (0, 1) if after[i].get('val') != ref_vals[i]]
         if bad:
-            out.append({'pause_after_line': n, 'results': results})
+            out.append({'pause_after_line': n, 'results': results, 'sequential_calls_afterwards': after})
         if count[0] <= n:
             break
         n += step
@@ -277,6 +291,12 @@ def main():
             SCHED.enabled = False
             ref_cr = [to_json(getattr(ref, f)(k)) for f, k in jobs_cr]
             rec['compile_race'] = dict(compile_race(spec, roots, jobs_cr, ref_cr), jobs=jobs_cr)
+            if len(ids) >= 3:
+                # two later calls of one field on different keys, on a pipeline that has been used before
+                f_ = rnd.choice(fields)
+                jobs_w = [(f_, ids[0]), (f_, ids[1])]
+                ref_w = [to_json(getattr(ref, f)(k)) for f, k in jobs_w]
+                rec['call_race'] = dict(compile_race(spec, roots, jobs_w, ref_w, max_points=3000, warm=(f_, ids[2])), jobs=jobs_w)
         out.append(rec)
         for r in roots:
             shutil.rmtree(r, ignore_errors=True)
